@@ -94,7 +94,7 @@ type R struct {
 
 func newR(prop string) *R {
 	return &R{Outcomes: map[string]int64{}, Maxima: map[string]float64{}, Counters: map[string]int64{},
-		keyset: map[uint64]struct{}{}, prop: prop, vioCap: 200, vioSeen: map[string]int{}, Exhaustive: true}
+		keyset: map[uint64]struct{}{}, prop: prop, vioCap: 3000, vioSeen: map[string]int{}, Exhaustive: true}
 }
 
 // NewR returns a standalone accumulator (used by tests of the harness itself).
